@@ -21,3 +21,8 @@ Proof. vm_compute. reflexivity. Qed.
 Theorem C01_same_name_blocks_merged :
   merge_egroups = true /\ merge_initial = true /\ merge_ngroups = true.
 Proof. vm_compute. repeat split. Qed.
+
+(* the written lines are the whole file: on every path of FEMData.write('fistr')
+   the first write to <name>.msh truncates it (effect program of c07_effects) *)
+Theorem C01_msh_file_truncated : msh_truncated = true.
+Proof. vm_compute. reflexivity. Qed.
